@@ -155,10 +155,23 @@ func VfC09_AcceptHex() {
 	signed := vfBool("signed")
 	var n int
 	if signed {
-		n = int((w + 3) / 4)
-		if n > 16 {
+		// two's complement *by type width* (the property's definition): a
+		// literal of ceil(w/4) digits may have the sign bit set; a shorter one
+		// cannot and denotes its unsigned value.  Lengths around the 64-bit
+		// boundary are where fast paths break.
+		full := int((w + 3) / 4)
+		lens := [...]int{0, 1, 2, 8, 15, 16, 17}
+		k := vfChoice("n", len(lens))
+		n = lens[k]
+		if k == 0 {
+			n = full
+		}
+		if n > full {
+			vfCut("longer than the type allows")
+		}
+		if n > 17 {
 			if vfTier() == 0 {
-				vfCut("s0x literals longer than 16 digits are outside the quick bound")
+				vfCut("s0x literals longer than 17 digits are outside the quick bound")
 			}
 		}
 	} else {
